@@ -176,6 +176,26 @@ def impl(case):
         out["mutated_in_place_ok"] = got_m == want_m
         if got_m != want_m:
             out["mutated_in_place_counterexample"] = {"got": got_m, "want": want_m}
+        # the same history through a query compiled with filter caching OFF, and with another filter context in between
+        c_nc = env_nc.compile(text)
+        scratch2 = deep(case["doc"])
+        ctx_b = dict(deep(case["ctx"]), k=2, s="zz", names=["c"], t=False)
+        attempt(lambda: c_nc.findall(scratch2, filter_context=ctx_b))
+        attempt(lambda: c_nc.findall(scratch2, filter_context=ctx))
+        if isinstance(scratch2, dict):
+            scratch2.clear()
+            scratch2.update(deep(case["other"]))
+        else:
+            scratch2[:] = deep(case["other"])
+        got_n = attempt(lambda: show_matches(list(c_nc.finditer(scratch2, filter_context=ctx))))
+        if got_n != want_m:
+            out["mutated_in_place_ok"] = False
+            out["mutated_in_place_counterexample"] = {"caching": "off", "got": got_n, "want": want_m}
+        got_c = attempt(lambda: show_matches(list(c_nc.finditer(scratch2, filter_context=ctx_b))))
+        want_c = attempt(lambda: show_matches(list(jsonpath.JSONPathEnvironment(filter_caching=False).compile(text).finditer(deep(case["other"]), filter_context=ctx_b))))
+        if got_c != want_c:
+            out["mutated_in_place_ok"] = False
+            out["mutated_in_place_counterexample"] = {"caching": "off", "context": "changed", "got": got_c, "want": want_c}
     else:
         out["mutated_in_place_ok"] = True
     # interleaved lazy iterators from the same compiled object: over one document, and over different documents /
